@@ -225,6 +225,13 @@ func (tr *Tracer) step(st *state) (*state, []*state) {
 		f.regs[in] = &Sym{Kind: KTuple, Args: []*Sym{st.fresh("nextok", types.Typ[types.Bool], in), st.fresh("nextk", nil, in), st.fresh("nextv", nil, in)}}
 	case *ssa.Store:
 		addr, v := tr.val(st, in.Addr), tr.val(st, in.Val)
+		// `*p = T{f: x}` is compiled as a store of the zero T followed by the named field stores: the zero
+		// store is the zero store of every field (so that it reads the same as field-by-field assignment)
+		if r := addr.root(); r != nil && r.Kind != KAlloc && v.Kind == KConst && v.Const == nil {
+			if tr.storeZeroFields(st, in, addr, in.Val.Type(), 0) {
+				break
+			}
+		}
 		old := tr.loadCell(st, addr, in.Val.Type())
 		st.emit(&Event{Kind: EvStore, Instr: in, Addr: addr, Val: v, Old: old})
 		tr.storeCell(st, addr, v)
@@ -377,6 +384,18 @@ func (tr *Tracer) gotoBlock(st *state, b *ssa.BasicBlock) (*state, []*state) {
 		default:
 			// verify the candidate invariants assumed for the generalised iteration
 			for _, inv := range f.loopInv[b] {
+				if inv.phi != nil {
+					for i, p := range b.Preds {
+						if p != from {
+							continue
+						}
+						if k := tr.knownConst(st, tr.val(st, inv.phi.Edges[i])); k == nil || k.Key() != inv.c.Key() {
+							tr.badInv[blockID(b)+"phi:"+inv.phi.Name()] = true
+							tr.restart = true
+						}
+					}
+					continue
+				}
 				cur := tr.loadCellQuiet(st, inv.addr)
 				if k := tr.knownConst(st, cur); k == nil || k.Key() != inv.c.Key() {
 					tr.badInv[blockID(b)+inv.addr.Key()] = true
@@ -481,6 +500,19 @@ func (tr *Tracer) freshPhis(st *state, f *frame, h, from *ssa.BasicBlock) {
 				}
 			}
 			s.Args = []*Sym{old, step}
+			// candidate invariant: the variable held the same constant on first entry and now at the back edge
+			// (`err` in `for ... { if err = f(); err != nil { return } }`)
+			if step == nil && !tr.badInv[blockID(h)+"phi:"+ph.Name()] {
+				if c0 := tr.knownConst(st, old); c0 != nil {
+					if c1 := tr.knownConst(st, tr.val(st, ph.Edges[backIdx])); c1 != nil && c1.Key() == c0.Key() {
+						st.eqc[s.Key()] = c0
+						if f.loopInv == nil {
+							f.loopInv = map[*ssa.BasicBlock][]loopInvariant{}
+						}
+						f.loopInv[h] = append(append([]loopInvariant(nil), f.loopInv[h]...), loopInvariant{phi: ph, c: c0})
+					}
+				}
+			}
 		}
 		news = append(news, pv{ph, s})
 		pc++
@@ -834,4 +866,24 @@ func (tr *Tracer) doSelect(st *state, in *ssa.Select) (*state, []*state) {
 		return nil, nil
 	}
 	return outs[0], outs[1:]
+}
+
+// storeZeroFields writes the zero value of struct type t at addr field by field.
+func (tr *Tracer) storeZeroFields(st *state, in *ssa.Store, addr *Sym, t types.Type, depth int) bool {
+	stt, ok := t.Underlying().(*types.Struct)
+	if !ok || stt.NumFields() == 0 || depth > 2 {
+		return false
+	}
+	for i := 0; i < stt.NumFields(); i++ {
+		fld := stt.Field(i)
+		fa := &Sym{Kind: KFieldAddr, Args: []*Sym{addr}, Field: fld, FIdx: i, Typ: types.NewPointer(fld.Type())}
+		if _, isStruct := fld.Type().Underlying().(*types.Struct); isStruct && tr.storeZeroFields(st, in, fa, fld.Type(), depth+1) {
+			continue
+		}
+		z := zeroSym(fld.Type())
+		old := tr.loadCell(st, fa, fld.Type())
+		st.emit(&Event{Kind: EvStore, Instr: in, Addr: fa, Val: z, Old: old})
+		tr.storeCell(st, fa, z)
+	}
+	return true
 }
